@@ -98,5 +98,16 @@ void uses(SU_vector& a, SU_vector& b, const double* buf, double t) {
   c1 = detail::guarantee<detail::NoAlias | detail::EqualSizes | detail::AlignedStorage>(a + b);
   c1 += a + b;
   c1 -= iCommutator(a, b);
+  // operations between unevaluated expressions (and between an expression and a vector): members of EvaluationProxy<Op>
+  double y = (a + b) * (a - b);
+  (void)y;
+  SU_vector p1((a + b) + (a - b));
+  SU_vector p2((a + b) - (a - b));
+  SU_vector p3((a + b).Evolve(a - b, t));
+  SU_vector p4((a + b) + a);
+  SU_vector p5((a + b) - a);
+  SU_vector p6((a + b).Evolve(a, t));
+  SU_vector p7((a + b) * 2.0);
+  SU_vector p8(-(a + b));
 }
 } // namespace sqv_driver
